@@ -262,11 +262,15 @@ theorem mrel_write (b : Bytes) : MRel t d Eq (writeM b) (writeM b) := mrel_of_en
 theorem mrel_trimLeft : MRel t d Eq trimLeftM trimLeftM := mrel_of_envFree envFree_trimLeft
 theorem mrel_trimRight : MRel t d Eq trimRightM trimRightM := mrel_of_envFree envFree_trimRight
 
+theorem mrel_writeVerbatim (b : Bytes) : MRel t d Eq (writeVerbatimM b) (writeVerbatimM b) := by
+  unfold writeVerbatimM
+  exact mrel_bind (mrel_write []) (fun _ _ _ => mrel_bind (mrel_write b) (fun _ _ _ => mrel_flush))
+
 theorem mrel_writeAll : ∀ cs, MRel t d Eq (writeAllM cs) (writeAllM cs)
   | [] => mrel_pure rfl
   | c :: cs => by
     unfold writeAllM
-    exact mrel_bind (mrel_write c) (fun _ _ _ => mrel_writeAll cs)
+    exact mrel_bind (mrel_writeVerbatim c) (fun _ _ _ => mrel_writeAll cs)
 
 theorem mrel_tablerowBefore (cols i : Nat) : MRel t d Eq (tablerowBefore cols i) (tablerowBefore cols i) := by
   unfold tablerowBefore
